@@ -534,6 +534,16 @@ func (c *CreateTableStatement) Format(opts FormatOptions) string {
 		fmt.Fprintf(sb, " %s (%s)", c.PartitionBy.Type, strings.Join(c.PartitionBy.Columns, ", "))
 	}
 
+	if len(c.Partitions) > 0 {
+		defs := make([]string, len(c.Partitions))
+		for i := range c.Partitions {
+			defs[i] = partitionDefinitionSQL(&c.Partitions[i])
+		}
+		sb.WriteString(" (")
+		sb.WriteString(strings.Join(defs, ", "))
+		sb.WriteString(")")
+	}
+
 	for _, opt := range c.Options {
 		fmt.Fprintf(sb, " %s=%s", opt.Name, opt.Value)
 	}
